@@ -437,8 +437,22 @@ pub fn derive_table(repo: &str) -> String {
     if removed.len() != KINDS.len() {
         die(&format!("output_newtype: constraint kinds are {:?}, expected {:?}: the IR changed", removed.iter().map(|x| &x.0).collect::<Vec<_>>(), KINDS));
     }
-    if on.ops.len() != 1 + arm_ops_total {
-        die(&format!("output_newtype: {} derive_set operations, {} understood: {:?}", on.ops.len(), 1 + arm_ops_total, on.ops));
+    // operations that are neither the first extend nor an unconditional remove inside a constraint arm
+    // (e.g. a remove hoisted out of the match under an `if`): tabled verbatim in `newtype_other_ops`, which the
+    // check pins to the empty list - the model does not interpret them, so the obligation breaks, but the
+    // table is still regenerated and every other obligation keeps running.
+    let mut other_ops: Vec<String> = vec![];
+    {
+        let arm_ctx = |op: &Op| op.ctx.iter().any(|c| c.starts_with("arm TypeEntryNewtypeConstraints") || c.starts_with("arm _"));
+        for op in on.ops.iter().skip(1) {
+            let in_constraint_match = arm_ctx(op) && op.method == "remove" && op.ctx.len() == 1;
+            if !in_constraint_match {
+                other_ops.push(format!("{}({}) under [{}]", op.method, op.args.join(", "), op.ctx.join(" / ")));
+            }
+        }
+    }
+    if on.ops.len() != 1 + arm_ops_total + other_ops.len() {
+        die(&format!("output_newtype: {} derive_set operations, {} understood: {:?}", on.ops.len(), 1 + arm_ops_total + other_ops.len(), on.ops));
     }
     if on.mentions != on.ops.len() + 1 {
         die(&format!("output_newtype: derive_set mentioned {} times, expected {}", on.mentions, on.ops.len() + 1));
@@ -585,6 +599,8 @@ pub fn derive_table(repo: &str) -> String {
         })
         .collect();
     writeln!(out, "Definition newtype_removed : list (string * list string) :=\n  [ {} ].\n", rows.join("\n  ; ")).unwrap();
+    writeln!(out, "(* output_newtype: derive_set operations the translator does not interpret (must be none) *)").unwrap();
+    writeln!(out, "Definition newtype_other_ops : list string := {}.\n", coq_list(&other_ops.iter().map(|s| norm(s)).collect::<Vec<_>>())).unwrap();
     writeln!(out, "(* output_newtype: arms of `match constraints` whose quote! holds `impl<'de> ::serde::Deserialize<'de> for #type_name` *)").unwrap();
     let rows: Vec<String> = KINDS
         .iter()
